@@ -72,11 +72,11 @@ C03 == C03_Order /\ C03_HandlersInside /\ C03_Graceful /\ C03_StartErr
 (* C04 stop is a drain barrier; termination announced after stopped() *)
 
 C04_Drain ==             \* absent failures, everything whose submission completed before the first stop request is handled
-  \A a \in Used : (act[a].pc = "done" /\ hst.stopReq[a]) => hst.preStop[a] \subseteq HbSet(a)
+  \A a \in Used : (act[a].pc = "done" /\ hst.stopReq[a] /\ act[a].cbk # "stream") => hst.preStop[a] \subseteq HbSet(a)
 C04_NoLate ==            \* nothing submitted after an accepted stop request returned is ever handled
   \A a \in Used : hst.late[a] \cap HbSet(a) = {} /\ hst.late[a] \cap hst.okcall = {}
 C04_StopTerminates ==    \* an accepted stop, absent failure: the loop never goes back to waiting for more once Stop was taken
-  \A a \in Used : act[a].cbk = "stop" => act[a].pc \in {"stopping", "stopped", "notified", "done", "failed"}
+  \A a \in Used : act[a].cbk = "stop" => act[a].pc \in {"finishing", "stopping", "stopped", "notified", "done", "failed"}
 C04_AnnounceAfter ==
   \A a \in Used : \A i \in 1..Len(hst.ann[a]) :
     LET e == hst.ann[a][i] IN
@@ -91,7 +91,7 @@ C04 == C04_Drain /\ C04_NoLate /\ C04_StopTerminates /\ C04_AnnounceAfter
 C05_KeepAlive ==         \* the loop ended through "mailbox closed" only if no strong holder was left
   \A a \in Used : act[a].cbk = "closed" => ~ChanOpen(a)
 C05_DrainOnDrop ==
-  \A a \in Used : (act[a].cbk = "closed" /\ act[a].pc \in {"stopping", "stopped", "notified", "done"}) => hst.acc[a] \subseteq HbSet(a)
+  \A a \in Used : (act[a].cbk = "closed" /\ act[a].pc \in {"finishing", "stopping", "stopped", "notified", "done"}) => hst.acc[a] \subseteq HbSet(a)
 C05_UpgradeDead ==       \* once no strong handle is left, no strong handle ever exists again
   \A a \in Used : hst.upfail[a] => (~LiveH(a, {"addr", "owning", "sender"}) \/ "D2" \in Dev)
 C05 == C05_KeepAlive /\ C05_DrainOnDrop /\ C05_UpgradeDead
@@ -179,6 +179,22 @@ C12_Bound ==
   \A a \in Used : act[a].cap # Unb =>
      Cardinality({m \in hst.oksend[a] : InQueue(act[a], m)}) <= act[a].cap
 C12 == C12_Bound
+
+-----------------------------------------------------------------------------
+(* C13 stream-attached actors handle every item in order and end with the stream *)
+StreamIdx(a) == {j \in 1..Len(hst.hb[a]) : hst.hb[a][j].m[1] = "s." \o a}
+C13_ItemsInOrder ==      \* the k-th handled item is item k of the stream: each once, in stream order, none skipped
+  \A a \in Used : \A j \in StreamIdx(a) :
+     hst.hb[a][j].m[2] = Cardinality({i \in StreamIdx(a) : i <= j})
+C13_NeverAbandoned ==    \* an item or message being handled is never abandoned (no timeout applies to stream-attached actors)
+  \A a \in Used : act[a].stream => \A x \in hst.abt : x[1] # a
+C13_EndsWithFinished ==  \* every graceful end: finished, then stopped, once each
+  \A a \in Used : (act[a].stream /\ act[a].pc \in {"stopped", "notified", "done"}) =>
+     LET s == hst.cb[a] IN Len(s) >= 4 /\ s[Len(s)][1] = "pe" /\ s[Len(s) - 1][1] = "pb" /\ s[Len(s) - 2][1] = "fe" /\ s[Len(s) - 3][1] = "fb"
+                           /\ Cardinality({i \in 1..Len(s) : s[i][1] = "fb"}) = 1
+C13_StreamEndStops ==    \* an exhausted stream is never left waiting: the loop is not idle with nothing to wait for
+  \A a \in Used : (act[a].stream /\ act[a].pc = "idle" /\ act[a].sq.ended /\ act[a].sq.ready = 0) => LoopCanStep(a)
+C13 == C13_ItemsInOrder /\ C13_NeverAbandoned /\ C13_EndsWithFinished /\ C13_StreamEndStops /\ C03_Order /\ C03_Graceful /\ C01_AtMostOnce
 
 -----------------------------------------------------------------------------
 (* C14 stopped() / running() tell the truth without anyone awaiting the actor *)
